@@ -124,6 +124,10 @@ def run_case(job):
                                 start_time=start, start_step=(3 if m % 2 else 0),
                                 dynamics_sites=[0])
             s0 = 3 if m % 2 else 0
+            if m % 4 == 1:
+                # the object is initialised explicitly first (e.g. to look at the initial state): the grid is the same
+                tebd.initialize()
+                tebd.get_current_density_matrix(0)
             if m >= 2 and m % 3 != 1:
                 # the requested grid is reached in two calls; a call whose end step has been passed adds nothing
                 tebd.compute(s0 + m // 2, progress_type="silent")
